@@ -174,7 +174,24 @@ package fingerprint
 
 // With method timestamp a check that got as far as comparing the times always refreshes the stamp (unless dry),
 // whatever the verdict: otherwise the run that rebuilds would leave a stale stamp behind.
+// the two helpers that compare modification times only look at the disk
+//@ func getMaxTime
+//@   modifies heap
+//@   preserves $RUNDATA
+//@ func anyFileNewerThan
+//@   modifies heap
+//@   preserves $RUNDATA
+//@ ghost var stampSeen bool scratch
 //@ func (*TimestampChecker).IsUpToDate
+// "up to date" needs the record of an attempt that was not a failure: the marker is made when the task is first
+// checked and removed again when the attempt fails (OnError), so a check that finds NO marker - no attempt yet, or the
+// last one failed - never answers "up to date", however new the generated files are (a failed attempt may have
+// written them before it failed)
+//@   init stampSeen := false
+//@   site os.Stat#1 requires arg0 == timestampFile                                                                   [C04]
+//@   site os.Stat#1 ghost stampSeen := result.1 == nil
+//@   loop 1 invariant stampSeen      -- nothing after the look at the marker is reached without it                  [C04]
+//@   ensures result.0 ==> stampSeen                                                                                  [C04]
 //@   init compared := false
 //@   init refreshed := false
 //@   site anyFileNewerThan#1 ghost compared := result.1 == nil
